@@ -2673,6 +2673,10 @@ func (p *Posix) UploadPartCopy(ctx context.Context, upi *s3.UploadPartCopyInput)
 		if err != nil && !errors.Is(err, meta.ErrNoSuchKey) {
 			return s3response.CopyPartResult{}, fmt.Errorf("get src object version id: %w", err)
 		}
+		if errors.Is(err, meta.ErrNoSuchKey) {
+			// an object without a version id is the null version
+			vId = []byte(nullVersionId)
+		}
 
 		if string(vId) != srcVersionId {
 			srcBucket = filepath.Join(p.versioningDir, srcBucket)
@@ -4206,6 +4210,10 @@ func (p *Posix) CopyObject(ctx context.Context, input s3response.CopyObjectInput
 		}
 		if err != nil && !errors.Is(err, meta.ErrNoSuchKey) {
 			return nil, fmt.Errorf("get src object version id: %w", err)
+		}
+		if errors.Is(err, meta.ErrNoSuchKey) {
+			// an object without a version id is the null version
+			vId = []byte(nullVersionId)
 		}
 
 		if string(vId) != srcVersionId {
